@@ -106,13 +106,16 @@ func runC09(r *Report) {
 		}
 		// ---- R-C09-2: bridge in the map before the record is registered --------------
 		for _, rw := range Calls(ssb, false, "RegisterWaitingTunnel") {
-			skipped := ReachesWithout(ssb, rw.(ssa.Instruction), func(in ssa.Instruction) bool {
+			isInsert := func(in ssa.Instruction) bool {
 				mu, ok := in.(*ssa.MapUpdate)
 				if !ok {
 					return false
 				}
 				_, f, _, ok := FieldOf(mu.Map)
 				return ok && f == "tunnelBridges"
+			}
+			skipped := ReachesWithout(ssb, rw.(ssa.Instruction), func(in ssa.Instruction) bool {
+				return performsVia(in, isInsert, rw.Block())
 			})
 			r.Ob("R-C09-2", CallPos(rw), !skipped, "the bridge is inserted in tunnelBridges before its routing record is registered (a resolvable tunnel id always has a bridge)", "startSourceBridge", "bridge-before-record")
 		}
